@@ -248,8 +248,8 @@ struct Gen {
             else p.add(where, "batch_timeout", {rmod(), (long)(r.chance(0.2) ? 0 : r.range(2, 7))});
             break;
         case TB: {
-            static const long rates[] = {0, 1, 10, 100, 1000, 100000, 1000000, 65536, 131072};   // (also rates that do not fit 16 bits)
-            p.add(where, "tb", {rmod(), rates[r.below(9)], (long)r.below(12)});
+            static const long rates[] = {0, 1, 10, 100, 1000, 100000, 1000000, 65536, 131072, 2000000000};   // (also rates that do not fit 16 bits, and one that is refused: nothing may change then)
+            p.add(where, "tb", {rmod(), rates[r.below(camp == "C18" ? 10 : 9)], (long)r.below(12)});
             break;
         }
         case CTX: {
